@@ -8,6 +8,7 @@ import (
 	"math/rand/v2"
 	"os"
 	"path/filepath"
+	"strings"
 
 	pb "github.com/buchgr/bazel-remote/v2/genproto/build/bazel/remote/execution/v2"
 
@@ -36,54 +37,60 @@ func findCacheFile(dir, kind, hash string) (string, error) {
 }
 
 type hdrMut struct {
-	name string
-	core bool
-	f    func(rng *rand.Rand, file []byte, logical int64) []byte
+	name      string
+	coreReads string // read kinds scheduled in every run for this field (comma separated)
+	f         func(rng *rand.Rand, file []byte, logical int64) []byte
 }
 
 func put32(b []byte, off int, v uint32) { binary.LittleEndian.PutUint32(b[off:], v) }
 func put64(b []byte, off int, v uint64) { binary.LittleEndian.PutUint64(b[off:], v) }
 
 var hdrMuts = []hdrMut{
-	{"magic", false, func(rng *rand.Rand, f []byte, _ int64) []byte {
+	{"magic", "", func(rng *rand.Rand, f []byte, _ int64) []byte {
 		put32(f, 0, lib.Pick(rng, []uint32{0, 0xFD2FB528, 0x184D2A51, 0xffffffff}))
 		return f
 	}},
-	{"frame-size", false, func(rng *rand.Rand, f []byte, _ int64) []byte {
+	{"frame-size", "", func(rng *rand.Rand, f []byte, _ int64) []byte {
 		cur := binary.LittleEndian.Uint32(f[4:])
 		put32(f, 4, lib.Pick(rng, []uint32{0, cur + 8, cur - 8, 0xffffffff, 21}))
 		return f
 	}},
-	{"logical-size", false, func(rng *rand.Rand, f []byte, n int64) []byte {
+	{"logical-size", "", func(rng *rand.Rand, f []byte, n int64) []byte {
 		put64(f, 8, uint64(lib.Pick(rng, []int64{0, -1, n + 1, n - 1, math.MaxInt64, math.MinInt64, 1})))
 		return f
 	}},
-	{"compression-type", false, func(rng *rand.Rand, f []byte, _ int64) []byte {
+	{"compression-type", "", func(rng *rand.Rand, f []byte, _ int64) []byte {
 		f[16] = lib.Pick(rng, []byte{0, 2, 255})
 		return f
 	}},
-	{"chunk-size-zero", true, func(rng *rand.Rand, f []byte, _ int64) []byte {
+	{"chunk-size-zero", "bsread-5,http-get", func(rng *rand.Rand, f []byte, _ int64) []byte {
 		put32(f, 17, 0)
 		return f
 	}},
-	{"chunk-size-odd", false, func(rng *rand.Rand, f []byte, n int64) []byte {
-		cur := binary.LittleEndian.Uint32(f[17:])
-		put32(f, 17, lib.Pick(rng, []uint32{1, cur / 2, cur * 2, cur - 1, cur + 1, 0xffffffff, uint32(n)}))
+	// One less than the real chunk size keeps the chunk count plausible; the
+	// last chunk then decodes to fewer bytes than the offset arithmetic expects.
+	{"chunk-size-minus-one", "bsread-last,bszstd-last", func(rng *rand.Rand, f []byte, _ int64) []byte {
+		put32(f, 17, binary.LittleEndian.Uint32(f[17:])-1)
 		return f
 	}},
-	{"offset-count", false, func(rng *rand.Rand, f []byte, _ int64) []byte {
+	{"chunk-size-odd", "", func(rng *rand.Rand, f []byte, n int64) []byte {
+		cur := binary.LittleEndian.Uint32(f[17:])
+		put32(f, 17, lib.Pick(rng, []uint32{1, cur / 2, cur * 2, cur - 2, cur + 1, 0xffffffff, uint32(n)}))
+		return f
+	}},
+	{"offset-count", "", func(rng *rand.Rand, f []byte, _ int64) []byte {
 		cur := binary.LittleEndian.Uint64(f[21:])
 		put64(f, 21, lib.Pick(rng, []uint64{0, 1, cur + 1, cur - 1, math.MaxUint64, math.MaxInt64, 1 << 40}))
 		return f
 	}},
-	{"offset-count-with-consistent-frame-size", false, func(rng *rand.Rand, f []byte, _ int64) []byte {
+	{"offset-count-with-consistent-frame-size", "", func(rng *rand.Rand, f []byte, _ int64) []byte {
 		cur := binary.LittleEndian.Uint64(f[21:])
-		n := lib.Pick(rng, []uint64{2, cur + 1, cur + 100, 1 << 20, 1 << 24})
+		n := lib.Pick(rng, []uint64{2, cur + 1, cur + 100, 1 << 20, 1 << 22}) // up to 32 MiB of offsets claimed by a 2 MiB file
 		put64(f, 21, n)
 		put32(f, 4, uint32(n*8+8+1+4+8))
 		return f
 	}},
-	{"offsets", false, func(rng *rand.Rand, f []byte, _ int64) []byte {
+	{"offsets", "", func(rng *rand.Rand, f []byte, _ int64) []byte {
 		n := int(binary.LittleEndian.Uint64(f[21:]))
 		if n < 2 || 29+8*n > len(f) {
 			return f
@@ -111,7 +118,7 @@ var hdrMuts = []hdrMut{
 		}
 		return f
 	}},
-	{"offsets-shifted-but-consistent", false, func(rng *rand.Rand, f []byte, _ int64) []byte {
+	{"offsets-shifted-but-consistent", "", func(rng *rand.Rand, f []byte, _ int64) []byte {
 		// middle offsets moved inside the file: monotone, first and last unchanged
 		n := int(binary.LittleEndian.Uint64(f[21:]))
 		for k := 1; k+1 < n && 29+8*k+8 <= len(f); k++ {
@@ -120,13 +127,13 @@ var hdrMuts = []hdrMut{
 		}
 		return f
 	}},
-	{"truncated", false, func(rng *rand.Rand, f []byte, _ int64) []byte {
+	{"truncated", "", func(rng *rand.Rand, f []byte, _ int64) []byte {
 		return f[:lib.Pick(rng, []int{0, 1, 28, 29, 44, 45, 46, len(f) / 2, len(f) - 1})]
 	}},
-	{"appended-garbage", false, func(rng *rand.Rand, f []byte, _ int64) []byte {
+	{"appended-garbage", "", func(rng *rand.Rand, f []byte, _ int64) []byte {
 		return append(f, lib.GenBlob(rng, 1+rng.IntN(5000), "random", "app")...)
 	}},
-	{"chunk-data-corrupt", false, func(rng *rand.Rand, f []byte, _ int64) []byte {
+	{"chunk-data-corrupt", "", func(rng *rand.Rand, f []byte, _ int64) []byte {
 		n := int(binary.LittleEndian.Uint64(f[21:]))
 		start := 29 + 8*n
 		if start >= len(f) {
@@ -141,13 +148,13 @@ var hdrMuts = []hdrMut{
 }
 
 func init() {
-	readKinds := []string{"bsread-0", "bsread-5", "bsread-chunk-1", "bsread-chunk", "bsread-chunk+1", "bsread-last", "bszstd-0", "bszstd-5", "bszstd-chunk+1", "http-get", "http-get-zstd", "batchread", "batchread-zstd", "splice-chunk"}
+	readKinds := []string{"bsread-0", "bsread-5", "bsread-chunk-1", "bsread-chunk", "bsread-chunk+1", "bsread-last", "bszstd-0", "bszstd-5", "bszstd-chunk+1", "bszstd-last", "http-get", "http-get-zstd", "batchread", "batchread-zstd", "splice-chunk"}
 	const chunk = 1 << 20
 	for _, hm := range hdrMuts {
 		hm := hm
 		for _, rk := range readKinds {
 			rk := rk
-			core := hm.core && (rk == "bsread-5" || rk == "http-get")
+			core := strings.Contains(","+hm.coreReads+",", ","+rk+",")
 			register(variant{fam: "disk.header." + hm.name, name: rk, core: core, applies: isLauncherZstd, build: func(fx *fixture, rng *rand.Rand) []*op {
 				b := mkBlob(lib.GenBlob(rng, chunk+1+rng.IntN(chunk+chunk/2), lib.Pick(rng, []string{"text", "repetitive", "random"}), fmt.Sprintf("disk/%s/%d", fx.p.name, fx.seq)), "victim")
 				gen := "disk.header." + hm.name
@@ -205,6 +212,7 @@ func init() {
 							return grpcRes(err)
 						}}
 				}
+				read.class = gen // one key per corrupted field, whatever the read path and offset
 				store := ensureOp(b)
 				store.gen = gen + "/store"
 				return []*op{store, corrupt, read}
@@ -271,11 +279,15 @@ func init() {
 			}
 			for _, m := range []string{"GET", "HEAD"} {
 				m := m
-				ops = append(ops, &op{ep: "http:" + m + ":/ac", desc: map[string]any{"key": key.Hash, "on_disk": c.name},
+				accept := lib.Pick(rng, []string{"application/json", "*/*"})
+				ops = append(ops, &op{ep: "http:" + m + ":/ac", desc: map[string]any{"key": key.Hash, "on_disk": c.name, "accept": accept},
 					run: func(ctx context.Context, fx *fixture) result {
-						return fx.httpDo(ctx, httpReq{method: m, path: "/ac/" + key.Hash, hdr: map[string]string{"Accept": lib.Pick(rng, []string{"application/json", "*/*"})}})
+						return fx.httpDo(ctx, httpReq{method: m, path: "/ac/" + key.Hash, hdr: map[string]string{"Accept": accept}})
 					}})
 			}
+			// the three read paths in seeded order (a crash on one path must not always hide the others)
+			reads := ops[2:]
+			rng.Shuffle(len(reads), func(i, j int) { reads[i], reads[j] = reads[j], reads[i] })
 			return ops
 		}})
 	}
